@@ -47,12 +47,17 @@ def decode(acc, block: bytes) -> Any:
 
 
 class _Observer:
-    def __init__(self, mon, acc):
+    def __init__(self, mon, acc, idx: int = 0):
         self.mon = mon
         self.acc = acc
+        self.idx = idx            # 0 = the primary observer, 1.. = additional independent observers on the same item
+        self.armed: Optional[str] = None     # a re-entrant action to perform from inside the next callback
 
     def on_change(self, sender=None, old=None, new=None):
-        self.mon._called(self.acc, sender, old, new)
+        self.mon._called(self.acc, sender, old, new, self)
+        if self.armed is not None:
+            action, self.armed = self.armed, None
+            self.mon._reentrant(self, action)
 
 
 class NotifyMonitor:
@@ -67,6 +72,8 @@ class NotifyMonitor:
         self.in_update = False
         self.expect_block: Optional[bytes] = None
         self.stats = {"updates": 0, "notifications": 0, "silent_intersecting": 0, "straddling": 0}
+        self.extra_calls: Dict[int, List[int]] = {}          # id(accessor) -> indices of additional observers called in this update
+        self.reentrant_log: List[Tuple[int, str]] = []
         self._orig = struct.replace_status_block_segment
         mon = self
 
@@ -80,8 +87,10 @@ class NotifyMonitor:
         if info is None:
             # observers are bound methods, as every real client passes (`accessor.watch(self._on_change)`); each registration
             # looks the method up afresh, so two registrations are equal but not identical objects
-            info = {"acc": acc, "obj": _Observer(self, acc), "active": True, "twice": False}
+            info = {"acc": acc, "obj": _Observer(self, acc), "active": False, "twice": False, "order": []}
             self.watched[id(acc)] = info
+        if not info["active"]:
+            info["order"].append(0)          # registration order of the item's observers (0 = primary)
         info["active"] = True
         for _ in range(times):
             acc.watch(info["obj"].on_change)
@@ -89,12 +98,72 @@ class NotifyMonitor:
             info["twice"] = True
             self.world.result.probe("watched_twice")
 
+    def add_observers(self, acc, n: int = 2) -> None:
+        """Further independent observers on an item that is being watched (clients commonly have several per item)."""
+        info = self.watched.get(id(acc))
+        if info is None or not info["active"] or info.get("extra"):
+            return
+        info["extra"] = [_Observer(self, acc, i + 1) for i in range(n)]
+        info["extra_active"] = [True] * n
+        for o in info["extra"]:
+            acc.watch(o.on_change)
+            info["order"].append(o.idx)
+        self.world.result.probe("several_observers_on_one_item")
+
+    def arm(self, acc, who: int, action: str) -> None:
+        """Arm observer `who` (0 = primary) of the item to unwatch itself / the next observer / all from inside its next callback."""
+        info = self.watched.get(id(acc))
+        if info is None or not info.get("extra") or not info["active"]:
+            return
+        obs = ([info["obj"]] + info["extra"])[who % (1 + len(info["extra"]))]
+        if obs.idx > 0 and not info["extra_active"][obs.idx - 1]:
+            return
+        obs.armed = action
+
+    def _reentrant(self, obs, action: str) -> None:
+        info = self.watched[id(obs.acc)]
+        alln = [info["obj"]] + info["extra"]
+        self.world.result.probe("reentrant_" + action)
+        def off(i: int) -> None:
+            if i == 0:
+                info["active"] = False
+            else:
+                info["extra_active"][i - 1] = False
+            if i in info["order"]:
+                info["order"].remove(i)
+
+        if action == "unwatch_all":
+            obs.acc.unwatch_all()
+            for i in range(len(alln)):
+                off(i)
+        elif action == "unwatch_self":
+            obs.acc.unwatch(obs.on_change)
+            off(obs.idx)
+        elif action == "unwatch_next":
+            nxt = alln[(obs.idx + 1) % len(alln)]
+            is_on = info["active"] if nxt.idx == 0 else info["extra_active"][nxt.idx - 1]
+            if is_on and nxt is not obs:
+                obs.acc.unwatch(nxt.on_change)
+                off(nxt.idx)
+        self.reentrant_log.append((obs.idx, action))
+
     def unwatch(self, acc) -> None:
         info = self.watched.get(id(acc))
         if info is not None and info["active"]:
             acc.unwatch(info["obj"].on_change)
             info["active"] = False
+            info["order"].remove(0)
             self.world.result.probe("unwatched")
+
+    def unwatch_all(self, acc) -> None:
+        acc.unwatch_all()
+        info = self.watched.get(id(acc))
+        if info:
+            info["active"] = False
+            info["order"] = []
+            if info.get("extra"):
+                info["extra_active"] = [False] * len(info["extra"])
+        self.world.result.probe("unwatch_all")
 
     def watch_all(self) -> int:
         n = 0
@@ -105,9 +174,23 @@ class NotifyMonitor:
         return n
 
     # -- observation ---------------------------------------------------------------------------------------------
-    def _called(self, acc, sender, old, new) -> None:
+    def _called(self, acc, sender, old, new, obs=None) -> None:
         blk = self.struct.status_block
         rec = (acc, sender, old, new, blk)
+        if obs is not None and obs.idx > 0:
+            # additional observers are judged by count only (the primary carries the value checks)
+            info = self.watched[id(acc)]
+            if not info["extra_active"][obs.idx - 1]:
+                self.world.note(self.prop, "removed-observer-called", f"{self.label}: item {acc.tag}: observer #{obs.idx} was removed "
+                                f"(re-entrantly, by an earlier observer of the same notification: {self.reentrant_log[-3:]}) but was still called",
+                                sig="removed-observer-called:reentrant")
+            self.extra_calls.setdefault(id(acc), []).append(obs.idx)
+            if not self.in_update:
+                self.outside.append((self.world.now(), acc.tag))
+            return
+        if obs is not None and obs.idx == 0 and self.watched[id(acc)].get("extra") and not self.watched[id(acc)]["active"] and self.in_update:
+            self.world.note(self.prop, "removed-observer-called", f"{self.label}: item {acc.tag}: the primary observer was removed re-entrantly "
+                            f"({self.reentrant_log[-3:]}) but was still called", sig="removed-observer-called:reentrant")
         if self.in_update:
             self.calls.append(rec)
         else:
@@ -120,6 +203,13 @@ class NotifyMonitor:
         new_block = old_block[:offset] + bytes(segment) + old_block[offset + seglen:]
         self.in_update = True
         self.calls = []
+        self.extra_calls = {}
+        # items with several observers: registration order and armed re-entrant actions as they are when the update starts
+        pre: Dict[int, Any] = {}
+        for aid, info in self.watched.items():
+            if info.get("extra"):
+                alln = [info["obj"]] + info["extra"]
+                pre[aid] = (list(info["order"]), {o.idx: o.armed for o in alln if o.armed}, len(alln))
         try:
             out = self._orig(offset, segment)
         finally:
@@ -147,9 +237,45 @@ class NotifyMonitor:
                 changed = o_raw != n_raw
             else:
                 changed = decode(acc, old_block) != decode(acc, new_block)
-            want = 1 if (intersects and changed and info["active"]) else 0
             ctx = f"{self.label}: update at {offset} len {seglen}, item {acc.tag} ({acc.type} @{acc.pos} len {acc.length} bitpos {acc.bitpos})"
-            if not info["active"] and got:
+            active = info["active"]
+            if aid in pre:
+                # reference semantics for several observers: those registered when the update starts are called once each, in
+                # registration order, except the ones an earlier observer of this very notification removed before their turn
+                order, armed, nobs = pre[aid]
+                expected: List[int] = []
+                if intersects and changed:
+                    reg = set(order)
+                    for idx in order:
+                        if idx not in reg:
+                            continue
+                        expected.append(idx)
+                        act = armed.get(idx)
+                        if act == "unwatch_all":
+                            reg.clear()
+                        elif act == "unwatch_self":
+                            reg.discard(idx)
+                        elif act == "unwatch_next":
+                            nxt = (idx + 1) % nobs
+                            if nxt != idx:
+                                reg.discard(nxt)
+                active = 0 in order
+                xc = self.extra_calls.get(aid, [])
+                for idx in range(1, nobs):
+                    wantx = 1 if idx in expected else 0
+                    if xc.count(idx) != wantx:
+                        how = f"re-entrant actions in this notification: {sorted(armed.items())}" if armed else "no re-entrant action"
+                        cls = "missed-notification" if xc.count(idx) < wantx else ("notified-twice" if wantx else "spurious-notification")
+                        w.note(self.prop, cls, f"{ctx}: observer #{idx} of {nobs} (registration order {order}) was called {xc.count(idx)} time(s), "
+                               f"expected {wantx}; {how}", sig=f"{cls}:several-observers" + (":reentrant" if armed else ""))
+                want = 1 if 0 in expected else 0
+                if armed and want == 1 and not got:
+                    w.note(self.prop, "missed-notification", f"{ctx}: the primary observer (registration order {order}) was not called; "
+                           f"re-entrant actions in this notification: {sorted(armed.items())}", sig="missed-notification:several-observers:reentrant")
+                    continue
+            else:
+                want = 1 if (intersects and changed and active) else 0
+            if not active and got:
                 w.note(self.prop, "removed-observer-called", f"{ctx}: observer was removed but was called")
                 continue
             if len(got) != want:
